@@ -45,6 +45,9 @@ CLAIMS = {
  "C20": dict(ref="5/C20",
    text="Depth towers of 9999/10000/10001 levels ([, {\"\":, alternating) with an innermost value from {none, 0, {}, []} and 0-2 symbolic bytes: accepted iff nesting <= 10000 on the ReadToken loop, ReadValue, SkipValue, IsValid, tokens-then-value splits, Format, Compact, AppendFormat, WriteValue, WriteToken pushes, and Marshal of nested []any / map[string]any with solver-chosen leaves incl. empty containers; Token accessors, constructors, WithIndent/WithIndentPrefix and Reset misuse panic exactly when documented; every panic escaping any harness of any property is reported as a violation.",
    note="Deep or cyclic typed Go values beyond []any/map[string]any and wall-clock termination (only the step budget) are outside."),
+ "C17": dict(ref="5/C17",
+   text="Real Go types implementing every combination of MarshalJSONTo/MarshalJSON/AppendText/MarshalText (and the unmarshal trio) on value and pointer receivers are marshaled/unmarshaled by the real library at 11-15 positions (top level, pointer, struct field, element, map key/value, behind any, nil pointer, non-addressable) while the user methods and caller-supplied functions follow scripts chosen by the solver (which tokens/values they write or read, what they return, Reset inside the call): the first method called is the first applicable in the documented order, ErrUnsupported without coder use falls through, pointer receivers are honoured for addressable and non-addressable values and never called on nil, anything but exactly one value (or ErrUnsupported after use) is an error, nil error implies valid output (C02 clause), options seen inside are the caller's, Reset inside panics; function lists in order with type match and skip rules.",
+   note="One known finding (KF-C17-close-parent-container: the one-value police can be escaped by closing the caller's container) is attributed by region; everything else is a violation. Legacy v1 options and retained coders are outside. reflect is the engine's go/types-backed environment model."),
  "C05": dict(ref="5/C05",
    text="A decoder fed through a reader whose every Read size is chosen by the solver (tiny buffer capacities 2..8 and the real 64-byte buffer, empty reads, EOF delivered with data) is compared call by call with a decoder over the whole slice, for all sequences of ReadToken/ReadValue/SkipValue/PeekKind within the bound and symbolic input bytes (full range and templates): same results, error class/offset/pointer, InputOffset, StackDepth, StackIndex, StackPointer; returned values equal their input span; reader bytes = first InputOffset bytes ++ UnreadBuffer. A second family injects one transient read error at a solver-chosen Read: the pending ReadToken/ReadValue returns it, state is unchanged, the retry continues identically.",
    note="Bounded: inputs of 2-3 fully symbolic bytes and templates of up to 18 bytes with symbolic holes, 2-3 calls, the first 2-9 Read sizes symbolic then 1-byte reads. UnmarshalRead/UnmarshalDecode for typed targets are reflection-driven and outside this claim. Trusted: gosym semantics (replay-validated), z3."),
